@@ -1,7 +1,7 @@
 CONSTANTS
   Conns = {"c1", "c2", "c3"}
-  MaxReq = 3
-  DrainTicks = 3
+  MaxReq = 2
+  DrainTicks = 2
   Defects = {}
   EmitCases = FALSE
 SPECIFICATION Spec
